@@ -21,7 +21,7 @@ def run(tier, rep):
     tables = os.path.join(vlib.scratch(), "c18.tables.ndjson")
     vlib.write_ndjson(tables, r.cases)
     tr = os.path.join(vlib.scratch(), "c18.trace.ndjson")
-    recs, _ = vlib.run_vh(["c18-drive", tables, tr, "400" if thorough else "25"], timeout=3000)
+    recs, _ = vlib.run_vh(["c18-drive", tables, tr, "4000" if thorough else "25"], timeout=3000)
     for x in recs:
         if x.get("kind") == "violation":
             rep.violation(x)
